@@ -550,4 +550,5 @@ func main() {
 	genLocks(repo, outDir)
 	genAppends(repo, outDir)
 	genProto(repo, outDir)
+	genGasBinding(repo, outDir)
 }
